@@ -138,6 +138,23 @@ class World:
         except Exception:
             return None
 
+    def scalar_of(self, n):
+        """secret scalar of a real node, read (after the fact) from its public serialize()
+        output or from its durable slot; None when neither exists any more"""
+        if n.x is not None:
+            return n.x
+        blob = None
+        if n.inst is not None and n.impl == "real":
+            try:
+                blob = n.inst.serialize()
+            except Exception:
+                blob = None
+        if blob is None and n.slot_meta and n.slot_meta[2] == "real":
+            blob = n.slot
+        if isinstance(blob, bytes):
+            n.x = self._read_scalar(n, blob)
+        return n.x
+
     def op_start(self, step):
         n = self.nodes[step["n"]]
         if n.inst is None:
@@ -329,30 +346,50 @@ class World:
         else:
             label = bytes([lab % 256])
         body = step.get("body", {"kind": "rand", "n": 32, "seed": 0})
-        base = label + dst.mparams().group.enc(dst.mparams().group.base)
-        if body.get("kind") == "hex":
-            wire = label + bytes.fromhex(body["hex"])
-            applied = True
-        elif body.get("kind") == "own":
-            wire = label + (dst.out[1:] if isinstance(dst.out, bytes) else b"")
-            applied = True
-        elif body.get("kind") == "valid":
-            g = dst.mparams().group
-            wire = label + g.enc(g.mul(g.base, int(body.get("k", 5))))
-            applied = True
-        else:
-            wire, applied = faults.apply(body, base, self._ctx(dst))
-            if body.get("kind") in ("rand",) and not body.get("keep_side", True):
-                pass
+        wire = label + self.resolve_body(body, dst.cur_pset, dst)
         kind = "craft:" + body.get("kind", "?")
         self.fired[kind] = self.fired.get(kind, 0) + 1
         return self._finish(step, dst, wire, True, kind)
+
+
+    def resolve_body(self, body, pset, dst=None):
+        """bytes of an adversary-built element encoding (no label)"""
+        mp = worlds.model_params(self.psets[pset])
+        g = mp.group
+        kind = body.get("kind")
+        if kind == "hex":
+            return bytes.fromhex(body["hex"])
+        if kind == "valid":
+            return g.enc(g.mul(g.base, int(body.get("k", 5))))
+        if kind == "own":
+            return dst.out[1:] if dst is not None and isinstance(dst.out, bytes) else b""
+        base = b"?" + g.enc(g.mul(g.base, int(body.get("base_k", 1))))
+        ctx = faults.Ctx(g, mp, dst.out if dst is not None else None, [m.out for m in self.nodes])
+        wire, _ = faults.apply(body, base, ctx)
+        return wire if kind == "strip_side" else wire[1:]
+
+    def op_decode(self, step):
+        """offer a byte string directly to params.group.bytes_to_element"""
+        pset = step.get("pset", 0)
+        b = self.resolve_body(step["body"], pset)
+        G = worlds.lib_params(self.psets[pset]).group
+        try:
+            e = G.bytes_to_element(b)
+            back = e.to_bytes()
+            out = "elem"
+        except Exception as ex:
+            out, back = "exc:" + type(ex).__name__, None
+        ev = self.log(step, out, dg(b))
+        ev["wire"], ev["back"], ev["pset"] = b, back, pset
+        self.fired["decode:" + step["body"].get("kind", "?")] = self.fired.get("decode:" + step["body"].get("kind", "?"), 0) + 1
+        return ev
 
 
 def run_scenario(scn, shadow=True, hooks=None):
     """execute a scenario; hooks: object with after_step(world, step, event) and
     finish(world) -> list of violation dicts"""
     w = World(scn["config"], shadow=shadow)
+    w.scn = scn
     for step in scn["steps"]:
         ev = w.apply(step)
         if hooks is not None:
@@ -376,7 +413,7 @@ def log_lines(world):
     out = []
     for ev in world.events:
         extra = {k: v for k, v in ev.items()
-                 if k not in ("i", "op", "n", "out", "d", "msg", "blob", "key", "wire")}
+                 if k not in ("i", "op", "n", "out", "d", "msg", "blob", "key", "wire", "back")}
         out.append("%3d %-9s n=%s -> %s [%s] %s" % (ev["i"], ev["op"], ev["n"], ev["out"], ev["d"],
                                                       json.dumps(extra, sort_keys=True) if extra else ""))
     return out
